@@ -3,13 +3,15 @@ Line-protocol driver for the C06 models.  Parsing / printing glue only.
 
 copy <fuel> <root> <ncells> cell*        (heap model, `copyCall` under the *regenerated* resolution table)
     cell := B | N <kind> <nslots> (<name> <val>)*     kind := D | L | F | O:<class>     val := i | r<addr>
-  → ok wt=<0|1> closed=<0|1> ord=<0|1> n0=<len before> n1=<len after> entry*
+  → ok wt=<0|1> closed=<0|1> ord=<0|1> pyd=<0|1> n0=<len before> n1=<len after> entry*
+    (pyd: every dict / __dict__ cell of the heap before and after has distinct keys, `pyDictB`)
     entry := <path>=new:<lim> | <path>=old<addr>:<lim>      lim := F(ull) | S(hallow) | X (shared by design)
       one entry per cell reachable from the copy (old cells and by-design-shared ones are not entered)
   | err attr|fuel|unknown
 
 hist <root> <ncells> cell* <nops> hop*   (heap histories, `stepH` of Core/C06Ops under the *regenerated* tables)
-    hop  := C i | W i path | F i path x <n> cell* | I i path x | P i path x j path | D i path x
+    hop  := C i | W i path | F i path x <n> cell* | T i path | I i path x | P i path x j path | D i path x
+            (T = first access of `.landmarks`: putFresh with the model's own fragment `Src.lmFrag`)
     path := <len> name*        cells of a fragment refer to each other by `r<k>` = k-th cell of the fragment
   → one block per op, blocks separated by ` | `:  ok wt=<0|1>|err:<kind> # <canonical dump of everything reachable
     from the roots in order (slots by name, list members in order): first visit numbers a cell, later visits
